@@ -153,6 +153,10 @@ static W2Plan gen_w2(const std::string &prop, uint64_t vseed, uint64_t index) {
         n.mac.a[0] = (uint8_t)((n.mac.a[0] & 0xFC) | 0x08); n.mac.a[5] = (uint8_t)((n.mac.a[5] & 0xF0) | i);
         n.mtu = r.chance(0.6) ? 1500 : (uint32_t)r.pickl({576, 1280, 4096, 9000, 9216});
         n.ipv4 = (uint32_t)r.next(); n.has4 = !r.chance(pf >= 0 ? 0.35 : 0.1);
+        if (r.chance(0.25)) { // addresses with a meaning: link-local (and its neighbours), loopback, private, multicast, limited broadcast, unspecified
+            static const uint32_t B[] = {0xA9FE0000u, 0xA9FE0101u, 0xA9FEFFFFu, 0xA9FDFFFFu, 0xA9FF0000u, 0x7F000001u, 0x0A000001u, 0xC0A80001u, 0xAC100001u, 0xE0000001u, 0xFFFFFFFFu, 0x00000000u, 0x64400001u, 0xC0000201u};
+            n.ipv4 = B[r.below(14)]; if ((n.ipv4 >> 16) == 0xA9FE && r.chance(0.5)) n.ipv4 |= (uint32_t)(r.next() & 0xFFFF);
+        }
         for (auto &c : n.ipv6) c = (uint8_t)r.next();
         n.has6 = !r.chance(pf >= 0 ? 0.35 : 0.2);
         n.loopback = false;
